@@ -2,7 +2,7 @@
 # run every claimed check (quick tier by default) on /repo as it is, in parallel; print one line per property
 cd "$(dirname "$0")/.."
 TIER=${1:-quick}
-ids=$(/venv/bin/python -c "import json; print(' '.join(c['property_id'] for c in json.load(open('MANIFEST.json'))['checks']))")
+ids=${VERIF_ONLY:-$(/venv/bin/python -c "import json; print(' '.join(c['property_id'] for c in json.load(open('MANIFEST.json'))['checks']))")}
 mkdir -p _build/runall
 for p in $ids; do
   ( ./check $p --tier $TIER > _build/runall/$p.log 2>&1; echo "$p exit=$? $(grep -E '^(OK|VIOLATION|KNOWN-FINDING|CHECK-BROKEN)' _build/runall/$p.log | head -3 | tr '\n' ' ' | cut -c1-220)" ) &
